@@ -12,7 +12,25 @@ def cstr(bs): return '"' + "".join(("\\x%02x\" \"" % b) if (b < 32 or b > 126 or
 def cchar(b): return "'\\''" if b == 39 else ("'\\\\'" if b == 92 else "'%s'" % chr(b))
 def char_id(c): return [c] if 32 < c < 127 else [92, 120] + [ord(x) for x in "%X%X" % (c // 16, c % 16)]
 
+def forced_parser(rng, k, constexpr):
+    """keywords before an identifier pattern, a char that prefixes a string, a number with an optional fraction"""
+    T = lambda kind, data, name=None, prec=0, assoc=0: {"kind": kind, "data": [ord(c) for c in data], "id": ([114, 95] + [ord(c) for c in data]) if kind == 2 else ([ord(c) for c in data] if kind == 1 else char_id(ord(data))),
+                                                        "name": [ord(c) for c in (name or data)] if kind == 2 else ([ord(c) for c in data] if kind == 1 else char_id(ord(data))), "prec": prec, "assoc": assoc}
+    layouts = [
+        [T(1, "while"), T(1, "wh"), T(2, "[a-z]+", "id"), T(0, ";")],
+        [T(1, "if"), T(1, "ifx"), T(2, "[a-z]+", "id"), T(2, "[0-9]+(\\.[0-9]+)?", "num"), T(0, "."), T(1, "..")],
+        [T(1, "ab"), T(2, "[a-c]+", "id"), T(0, "<"), T(1, "<="), T(1, "<<=")],
+        [T(2, "[0-9]+", "int"), T(2, "[0-9]+\\.[0-9]+", "real"), T(0, "."), T(2, "[a-z][a-z0-9]*", "id")],
+    ]
+    terms = layouts[k % len(layouts)]
+    nts = ["list", "item"]
+    rules = [{"lhs": "list", "rhs": [(0, "item")], "prec_given": False, "prec": 0, "ctx": False, "default": True},
+             {"lhs": "list", "rhs": [(0, "list"), (0, "item")], "prec_given": False, "prec": 0, "ctx": True, "default": False}]
+    for i in range(len(terms)): rules.append({"lhs": "item", "rhs": [(1, i)], "prec_given": False, "prec": 0, "ctx": False, "default": False})
+    return {"id": k, "nts": nts, "root": "list", "terms": terms, "rules": rules, "constexpr": constexpr}
+
 def gen_parser(rng, k, constexpr):
+    if k == 1: return forced_parser(rng, FORCED_LAYOUT[0], constexpr) | {"id": k}
     nts = list(rng.choice(NT_POOL)); rng.shuffle(nts); nts = nts[:rng.randint(1, len(nts))]
     root = nts[0]
     terms = []
@@ -31,7 +49,7 @@ def gen_parser(rng, k, constexpr):
             if rng.random() < 0.4 and terms and terms[-1]["kind"] == 0: s = terms[-1]["data"] + s[:1]      # a string that extends an earlier char term ('<' then "<=")
             add({"kind": 1, "data": s, "id": s, "name": s, "prec": prec, "assoc": assoc})
         else:
-            pat = rng.choice(["[0-9]+", "[a-c]+", "x+y", "[ab]c?", "(ab)+", "z|zz", "[0-9]+\\.[0-9]+"])
+            pat = rng.choice(["[0-9]+", "[a-c]+", "x+y", "[ab]c?", "(ab)+", "z|zz", "[0-9]+\\.[0-9]+", "[0-9]+(\\.[0-9]+)?", "\"[^\"]*\""])
             pb = [ord(c) for c in pat]; nm = [ord(c) for c in rng.choice(["num", "id", "tok"])]
             add({"kind": 2, "data": pb, "id": [114, 95] + pb, "name": nm, "prec": prec, "assoc": assoc})
     rules = []
@@ -81,7 +99,7 @@ def gen_inputs(rng, p, n):
         if t["kind"] != 2: toks.append(t["data"])
         else:
             pat = bytes(t["data"]).decode()
-            toks.append([ord(c) for c in {"[0-9]+": "42", "[a-c]+": "abc", "x+y": "xxy", "[ab]c?": "ac", "(ab)+": "abab", "z|zz": "zz", "[0-9]+\\.[0-9]+": "3.14"}[pat]])
+            toks.append([ord(c) for c in {"[0-9]+": "42", "[a-c]+": "abc", "x+y": "xxy", "[ab]c?": "ac", "(ab)+": "abab", "z|zz": "zz", "[0-9]+\\.[0-9]+": "3.14", "[0-9]+(\\.[0-9]+)?": "2.5", "[a-z]+": rng.choice(["whil", "w", "whilex", "i", "ifxy", "abc"]), "[a-z][a-z0-9]*": "x1", "\"[^\"]*\"": "\"a\nb\""}[pat]])
     by_l = {}
     for r in p["rules"]: by_l.setdefault(r["lhs"], []).append(r)
     def derive(sym, depth, out):
@@ -106,7 +124,9 @@ def gen_inputs(rng, p, n):
             else: out.insert(pos, rng.randrange(len(toks)))
         b = []
         for ti in out:
-            b += toks[ti]
+            tk = toks[ti]
+            if rng.random() < 0.08 and len(tk) > 1: tk = tk[:-1]            # a truncated lexeme: the scanner walks on and must fall back
+            b += tk
             if rng.random() < 0.5: b += rng.choice([[32], [10], [9], [32, 10]])
             if rng.random() < 0.03: b += rng.choice([[63], [0], [200]])
         ins.append((b, rng.choice([6, 7, 7, 3, 2, 4, 5])))
@@ -114,8 +134,10 @@ def gen_inputs(rng, p, n):
 
 def w_bytes(bs): return f"{len(bs)} " + " ".join(str(b) for b in bs)
 
+FORCED_LAYOUT = [0]
 def main():
     outc, outcases, seed, npars, nin = sys.argv[1], sys.argv[2], int(sys.argv[3]), int(sys.argv[4]), int(sys.argv[5])
+    FORCED_LAYOUT[0] = seed % 4
     rng = random.Random(seed)
     ps = [gen_parser(rng, k, constexpr=(k == 0)) for k in range(npars)]
     meta = {}
